@@ -95,6 +95,11 @@ _BUILTIN_CALLABLES = "monkeytype.typing:_BUILTIN_CALLABLE_TYPES"
 
 def _val_isinstance(ip, r, a, kw, node):
     c = a[0]
+    # isinstance(x, T) falls back to x.__class__ (user code) unless type(x) is already a subclass of T
+    if isinstance(c, GlobalRef) and c.path in _TYPE_PREDS_LAZY():
+        ip.effect("isinstance", _TYPE_PREDS_LAZY()[c.path](r.term), node)
+    else:
+        ip.effect("isinstance", z3.BoolVal(False), node)
     if isinstance(c, GlobalRef):
         if c.path == "builtins.type":
             return ZB(is_classobj(r.term))
@@ -105,6 +110,10 @@ def _val_isinstance(ip, r, a, kw, node):
         if c.path in ("types.FunctionType", "types.LambdaType", "types.MethodType", "types.BuiltinMethodType", "types.BuiltinFunctionType"):
             return ZB(is_callable_obj(r.term))
     raise Unsupported("isinstance(Val, %r)" % (c,))
+
+
+def _TYPE_PREDS_LAZY():
+    return _TYPE_PREDS
 
 
 R.METHODS[("Val", "__isinstance__")] = _val_isinstance
@@ -164,7 +173,14 @@ for _n in ("types.FunctionType", "types.LambdaType", "types.MethodType", "types.
     _TYPE_PREDS[_n] = lambda o: is_callable_obj(o)
 
 
+_TYPE_PREDS["builtins.str"] = lambda o: is_strval(o)
+for _n in ("builtins.classmethod", "builtins.staticmethod", "builtins.property"):
+    _TYPE_PREDS[_n] = (lambda n_: lambda o: L.fn("callee_is_" + n_.replace(".", "_"), L.V, L.B)(o))(_n)
+
+
 def _issubclass(ip, a, kw, node):
+    if isinstance(a[1], ZV) and a[1].term.eq(L.const("django_cached_property")) and isinstance(a[0], ZV) and z3.is_app(a[0].term) and a[0].term.decl().name() == "cls_of":
+        return ZB(L.fn("callee_is_django_cached_property", L.V, L.B)(a[0].term.arg(0)))
     # issubclass(type(obj), T) for the interpreter's own types: isinstance(obj, T) decided on the real runtime class
     items = a[1].items if isinstance(a[1], PySeq) else [a[1]]
     if all(isinstance(c, GlobalRef) and c.path in _TYPE_PREDS for c in items) and isinstance(a[0], ZV) \
